@@ -71,6 +71,15 @@ AIMS = {
         "with `..Default::default()` or `..self.clone()`; swapped arguments of the same type; a "
         "negated condition that only matters for one combination of two flags."
     ),
+    "9": (
+        "This round you are free in the KIND of mistake; what matters is WHERE: read the property "
+        "statement clause by clause and pick clauses (or combinations of two clauses) that NONE of the "
+        "earlier changes listed below touched, or inputs the quantifier names that none of them needed "
+        "(look at the parenthesised lists in the statement and the quantifier: every item in them is a "
+        "promise). Prefer a change whose demonstration needs two features of the input at once (for "
+        "example a removed constraint AND a dependency, a legacy layout AND a tie, a ranged row AND a "
+        "negative bound)."
+    ),
 }
 
 
